@@ -524,6 +524,9 @@ def driver_check(ctx: Context, rule: str, q: str, install_cls: str | None) -> in
                 if contains(t, lambda s: s[0] == "caught" and "StopIteration" in s[1]):
                     installs.append(n)
     if not installs:
+        # the driver hands the result on in some other way: every value-carrying return is an install point
+        installs = [n for n in cfg.nodes if n.kind == "return" and n.exprs]
+    if not installs:
         ck.unknown(rule, f"{short}: no install point (session object construction / return of the result) found", f.loc())
         return 0
     hedges = [e for h in stop_handlers for e in ctx.normal_out(cfg, h)]
